@@ -325,6 +325,30 @@ def _thread_result_switch(aj, lo, hi, ret_local, dest, target, sp, is_bool=False
             aj["blocks"].append(c)
             blk["stmts"] = blk["stmts"][:k] + [d]
             blk["term"] = {"k": "goto", "t": len(aj["blocks"]) - 1, "sp": sp, "exp": None}
+    # every definition now leads to its own clone: the originals are dead and must not contribute definitions to phis
+    dead = [target] if region is None else list(region)
+    if region is not None:
+        # a block of the region that can also be entered from outside it (a join after the construct that contains the call) stays
+        inside = set(region) | set(range(lo, hi))
+        preds = {}
+        for bi2, b2 in enumerate(aj["blocks"]):
+            if b2["cleanup"]:
+                continue
+            for t2 in _succs(b2["term"]):
+                preds.setdefault(t2, set()).add(bi2)
+        changed = True
+        keep = set()
+        while changed:
+            changed = False
+            for x in dead:
+                if x in keep:
+                    continue
+                if any((p2 not in inside) or (p2 in keep) for p2 in preds.get(x, ())) and x != target:
+                    keep.add(x)
+                    changed = True
+        dead = [x for x in dead if x not in keep]
+    for x in dead:
+        aj["blocks"][x] = {"cleanup": False, "stmts": [], "term": {"k": "unreachable", "sp": sp, "exp": None, "spliced_out": True}}
     return True
 
 
@@ -526,6 +550,8 @@ def inline_async_call(anchor, call_bb, shell, cor, params):
         blk["stmts"].append({"k": "assign", "lhs": {"l": ol + 2, "p": []}, "rv": {"use": {"copy": {"l": tc[0], "p": []}}}, "sp": sp, "exp": None})
     blk["term"] = {"k": "goto", "t": ob, "sp": sp, "exp": None, "inlined_call": cor.def_}
     aj["blocks"] = aj["blocks"] + new_blocks + [cont]
+    # the poll loop of this await is dead now; its Ready block would otherwise contribute a second definition of every local it sets
+    aj["blocks"][rb] = {"cleanup": False, "stmts": [], "term": {"k": "unreachable", "sp": sp, "exp": None, "spliced_out": True}}
     corr = list(aj.get("corr", []))
     if not payload["p"]:
         corr.append({"ret": ret_local, "dest": payload["l"]})
